@@ -74,6 +74,8 @@ func init() {
 				Bounds: "20 expression shapes (NOT/AND/OR/THEN, depth<=3) over data/tag leaves; payload of `events` symbolic (direction, byte) events; tag truth values symbolic"},
 			{Pkg: qp, Func: "ZZ_C03_Number", Solver: "cvc5", Quick: tier(map[string]int{"numfams": 1, "numshapes": 8}), Thorough: tier(map[string]int{"numfams": 2, "numshapes": 8}),
 				Bounds: "shapes over id/port/bytes leaves (single, range, open ranges, list) with symbolic 20-bit literals; stream attributes symbolic"},
+			{Pkg: qp, Func: "ZZ_C03_Arith", Solver: "cvc5", Quick: tier(map[string]int{"arithparts": 2, "arithshapes": 2}), Thorough: tier(map[string]int{"arithparts": 3, "arithshapes": 3}),
+				Bounds: "number filters key:<sum>, key:<sum>:, key::<sum> over cport/cbytes/sbytes whose sum has 1..arithparts signed parts (one symbolic literal 0..63 per part or one of the stream's own attributes); plain, negated, two filters together; stream attributes symbolic"},
 			{Pkg: qp, Func: "ZZ_C03_Mixed", Solver: "cvc5", Quick: tier(map[string]int{"mixfams": 6, "mixshapes": 6, "events": 2, "numforms": 2, "hostkeys": 1, "hostmasks": 2, "timeforms": 1}), Thorough: tier(map[string]int{"mixfams": 9, "mixshapes": 8, "events": 2, "numforms": 3, "hostkeys": 3, "hostmasks": 3}),
 				Bounds: "one leaf of each kind (number, tag, data, host/mask, ftime/ltime/time with relative durations) against each other"},
 			{Pkg: qp, Func: "ZZ_C03_Time", Solver: "cvc5", Quick: tier(map[string]int{"timeshapes": 4, "timekeys": 2}), Thorough: tier(map[string]int{"timeshapes": 8, "timekeys": 3}),
@@ -112,6 +114,8 @@ func init() {
 				Thorough: &Tier{Params: map[string]int{"level": 0, "maxlen": 6, "exprlo": 17, "exprhi": 18}, Samples: 10}, Bounds: "[a-c]x, buffers up to 5 (6) bytes: decoy suffixes before the real match"},
 			{Pkg: ix, Func: "ZZ_C04_Find", Desc: "fixed-length + constant suffix, case folded class", Quick: &Tier{Params: map[string]int{"level": 0, "maxlen": 4, "exprlo": 50, "exprhi": 51}, Samples: 10},
 				Bounds: "(?i)[a-b]c, buffers up to 4 bytes"},
+			{Pkg: ix, Func: "ZZ_C04_RawSource", Quick: tier(map[string]int{"streams": 2}), Thorough: tier(map[string]int{"streams": 3}),
+				Bounds: "the real SearchStreams over one index file of `streams` streams whose payload per direction has 0..2 symbolic bytes (5 length profiles); filter: one atom in one direction, plain or negated, or client atom THEN server atom: every stream matches by its own payload (raw data source with its reused buffers)"},
 			{Pkg: ix, Func: "ZZ_C04_Sequences", Desc: "one condition, THEN chains of up to 3 elements", Quick: tier(map[string]int{"sources": 1, "chunks": 3, "conditions": 1, "elements": 3}), Thorough: tier(map[string]int{"sources": 1, "chunks": 4, "conditions": 1, "elements": 3}),
 				Bounds: "the real dataConditionsContainer.add/finalize/makeDataConditionFilter over one converter output of 3 (4) one-byte chunks (directions enumerated, bytes symbolic); 1 data condition of 1..3 elements over atoms a/b in either direction, plain or inverted; oracle = reference scan in conversation order"},
 			{Pkg: ix, Func: "ZZ_C04_Sequences", Desc: "two conditions sharing expressions", Quick: tier(map[string]int{"sources": 1, "chunks": 2, "conditions": 2, "elements": 1}), Thorough: tier(map[string]int{"sources": 1, "chunks": 2, "conditions": 2, "elements": 2})},
@@ -131,11 +135,13 @@ func init() {
 				Bounds: "histories of `ops` operations from {store, invalidate, reset, close+reopen} over 2 stream ids; chunk lists of 1..chunks chunks (direction, length 1..chunklen symbolic bytes, content type, time offset chosen)"},
 			{Pkg: cv, Func: "ZZ_C15_Cache", Desc: "thin chunk lists, 4 operations", Quick: tier(map[string]int{"ops": 4, "chunks": 1, "chunklen": 1, "ctypes": 1, "dts": 1, "forcecompaction": 1}), Thorough: tier(map[string]int{"ops": 5, "chunks": 1, "chunklen": 1, "ctypes": 1, "dts": 1, "forcecompaction": 1}),
 				Bounds: "histories of 4 (5) operations incl. a store with forced in-session compaction (trigger counter raised artificially, state otherwise real)"},
+			{Pkg: cv, Func: "ZZ_C15_Cache", Desc: "chunk lists that may be empty, 3 operations", Quick: tier(map[string]int{"ops": 3, "chunks": 1, "chunklen": 1, "ctypes": 1, "dts": 1, "emptylist": 1}), Thorough: tier(map[string]int{"ops": 4, "chunks": 1, "chunklen": 1, "ctypes": 1, "dts": 1, "emptylist": 1, "forcecompaction": 1}),
+				Bounds: "as above with chunk lists of 0..1 chunks: an empty converter output is stored, replaces older output and survives a reopen"},
 			{Pkg: cv, Func: "ZZ_C15_Cut", Quick: tier(map[string]int{"chunks": 1, "chunklen": 2, "ctypes": 2, "dts": 2}), Thorough: tier(map[string]int{"chunks": 2, "chunklen": 2, "ctypes": 3, "dts": 3}),
 				Bounds: "two records, the file cut at every byte position inside the second record"},
 			{Pkg: cv, Func: "ZZ_C15_KF_InvalidateReopen", Quick: tier(nil), Desc: "witness of a known finding"},
 		},
-		Assumptions: []string{"in-memory file system model behind os.File (DESIGN.md 2.4); encoding/binary as a typed codec", "chunks are non-empty; chunk times are non-decreasing (t0 + chosen offsets); content types from a fixed set", "oracle: a Go map from stream id to the last stored chunk list"},
+		Assumptions: []string{"in-memory file system model behind os.File (DESIGN.md 2.4); encoding/binary as a typed codec", "chunks are non-empty (chunk lists may be empty); chunk times are non-decreasing (t0 + chosen offsets); content types from a fixed set", "oracle: a Go map from stream id to the last stored chunk list"},
 		Outside: []string{"the >= 16 MiB in-session compaction trigger inside setData (compaction is reached through reopen)", "concurrent readers", "more than 2 stream ids / 2 chunks per list in the rich harness"},
 	}
 
@@ -208,6 +214,8 @@ func init() {
 		Harnesses: []HarnessSpec{
 			{Pkg: mg, Func: "ZZ_C11_TagCalls", Isolate: true, Desc: "every history of 2 calls", Quick: tier(map[string]int{"calls": 2, "names": 3, "defs": 10, "loopbound": 2000}),
 				Bounds: "calls from {AddTag, UpdateTag(query), UpdateTag(colour), UpdateTag(name), DelTag, UpdateTag(query+colour+mark stream)} on names {tag/a, tag/b, mark/m} with 10 definitions (plain, references to existing/missing tags, sub-query reference, id list, unparsable)"},
+			{Pkg: mg, Func: "ZZ_C11_TagCalls", Isolate: true, Desc: "one call from every valid configuration of three tags", Quick: tier(map[string]int{"calls": 1, "prestate": 1, "defs": 11, "loopbound": 2000}),
+				Bounds: "pre-state: tag/a plain, tag/b in {plain, tag:a, @s:tag:a ...}, tag/c in {plain, tag:a, tag:b, tag:a tag:b, @s:tag:b ...}; then one call of any of the 6 kinds on any of the three names with any of the 11 definitions"},
 			{Pkg: mg, Func: "ZZ_C11_TagCalls", Isolate: true, Desc: "every history of 3 calls (add / update query / delete / rename)", Quick: tier(map[string]int{"calls": 3, "names": 2, "defs": 3, "callset": 1, "callkinds": 4, "loopbound": 2000}),
 				Thorough: tier(map[string]int{"calls": 4, "names": 2, "defs": 3, "callset": 1, "callkinds": 3, "loopbound": 2000}), Bounds: "reference cycles need three calls; inheritTagUncertainty loop bound 2000 (derived: one pass per tag) as unwinding assertion"},
 			{Pkg: mg, Func: "ZZ_C11_TagCalls", Isolate: true, Desc: "3 calls with sub-query references and renames", Quick: tier(map[string]int{"calls": 3, "names": 2, "defs": 2, "deffrom": 5, "callset": 1, "callkinds": 4, "loopbound": 2000})},
@@ -216,12 +224,23 @@ func init() {
 		Outside: []string{"converter attach/detach (external processes)", "histories longer than 3 (4) calls", "mark removal", "concurrent API callers"},
 	}
 
-	svc := HarnessSpec{Pkg: mg, Func: "ZZ_SVC_Scenarios", Quick: &Tier{Params: map[string]int{"realjobs": 1, "scenarios": 8}, Samples: 12},
-		Bounds: "five job-level schedules: sequential imports with merge; queued imports; an import completing while a merge is in flight; an import extending a stream while a tagging job of a data tag is in flight; an import that creates no index followed by a merge; a capture arriving out of chronological order (stream reset). Payload sizes of the first flow and the threshold of the data tag are symbolic"}
+	svc := HarnessSpec{Pkg: mg, Func: "ZZ_SVC_Scenarios", Quick: &Tier{Params: map[string]int{"realjobs": 1, "scenarios": 10}, Samples: 12},
+		Bounds: "ten job-level schedules: sequential imports with merge; queued imports; an import completing while a merge is in flight; an import extending a stream while a tagging job of a data tag is in flight; an import that creates no index followed by a merge; a capture arriving out of chronological order (stream reset); a referenced tag edited (to a definition with other members / with no members) while the job of the tag referencing it is in flight; a view first used before the first import; a tag deleted, re-added and referenced while its job is in flight; a tag deleted while its job is in flight, then a merge. Payload sizes of the first flow and the threshold of the data tag are symbolic"}
 	svcAssume := []string{"Manager constructed in-package as New() does (no watchers, converters, stored state); real service loop, real import/tagging/merge jobs and completion closures; goroutines under the engine's cooperative scheduler", "engine: Builder.FromPcap (cgo libpcap) replaced by a scripted importer that writes the index with the real Writer; natively the real importer reads generated capture files", "interleavings are sequenced by the harness at job granularity (the in-flight job's snapshot is taken by hand exactly as the starter does), so the schedule replays natively"}
 	svcOut := []string{"interleavings below job granularity", "converter jobs", "more than 4 captures", "restarts"}
+	svcSub := HarnessSpec{Pkg: mg, Func: "ZZ_SVC_Scenarios", Desc: "with a tag whose definition has a sub-query", Quick: &Tier{Params: map[string]int{"realjobs": 1, "scenarios": 2, "subtag": 1}, Samples: 4},
+		Bounds: "the sequential and the queued schedule with a fourth tag `@s:cport:1000 cport:@s:cport@:` (re-evaluated as a whole after every import)"}
 	for _, pid := range []string{"C06", "C09", "C10", "C13"} {
 		registry[pid] = CheckSpec{Property: pid, Harnesses: []HarnessSpec{svc}, Assumptions: svcAssume, Outside: svcOut}
+	}
+	{
+		c := registry["C06"]
+		c.Harnesses = append(c.Harnesses, svcSub)
+		registry["C06"] = c
+		// the tag graph is checked at every quiescent point of the scenarios as well
+		c11 := registry["C11"]
+		c11.Harnesses = append(c11.Harnesses, svc)
+		registry["C11"] = c11
 	}
 	c06 := registry["C06"]
 	c06.Harnesses = append([]HarnessSpec{{Pkg: qp, Func: "ZZ_C06_InlineTagFilters", Solver: "cvc5", Quick: tier(nil),
@@ -248,6 +267,8 @@ func init() {
 			{Pkg: ix, Func: "ZZ_C12_IndexCut", Quick: tier(c12p), Bounds: "a finalized index file of 2 streams cut at every byte position: NewReader must reject it; uncut it serves everything"},
 			{Pkg: ix, Func: "ZZ_C12_Unfinalized", Quick: tier(c12p), Bounds: "writer closed without Finalize, buffer flushed or not: rejected (magic is written last)"},
 			{Pkg: "internal/index/builder", Func: "ZZ_C12_Snapshots", Quick: tier(nil), Bounds: "1..2 snapshots, 1..2 capture names, 0..2 packet numbers each (symbolic), chunk counts symbolic: save/load round trip; the file cut at every byte position is an error"},
+			{Pkg: cv, Func: "ZZ_C15_Cache", Desc: "chunk lists that may be empty, 3 operations", Quick: tier(map[string]int{"ops": 3, "chunks": 1, "chunklen": 1, "ctypes": 1, "dts": 1, "emptylist": 1}), Thorough: tier(map[string]int{"ops": 4, "chunks": 1, "chunklen": 1, "ctypes": 1, "dts": 1, "emptylist": 1, "forcecompaction": 1}),
+				Bounds: "as above with chunk lists of 0..1 chunks: an empty converter output is stored, replaces older output and survives a reopen"},
 			{Pkg: cv, Func: "ZZ_C15_Cut", Quick: tier(map[string]int{"chunks": 1, "chunklen": 2, "ctypes": 2, "dts": 2}), Bounds: "converter cache cut inside its last record (shared with C15)"},
 			{Pkg: mg, Func: "ZZ_C12_Restart", Quick: &Tier{Params: map[string]int{"realjobs": 1, "gates": 7}, Samples: 8}, Bounds: "a service with 3 tags and 2..3 imported captures is shut down or killed at one of 7 job-level gates (settled; tagging job in flight with a later import completed; between an import's body and completion; inside the body with the index cut at 4 positions; merge body between an import's body and completion, killed / shut down later; inside a state save with the new file cut at 4 positions); the real manager.New starts from the directories left behind, settles, optionally imports one more capture; payload sizes and the data tag's threshold symbolic"},
 		},
